@@ -17,7 +17,8 @@ META = {
              "under no hash collision). Linearizability under real concurrency rests on sync.(RW)Mutex: it is reduced to the "
              "sequential theorems by the structural lock check and supported (not proved) by concurrent histories. The action "
              "store's full no-double-action/key-change statement is refuted on four argument classes (known findings), and "
-             "proved under exactly the guards excluding them.",
+             "proved under exactly the guards excluding them. The model's keys are unbounded numbers; the correspondence run includes wide-key "
+             "histories (heights equal mod 2^32, rounds equal mod 2^16) so that a store deriving its map key by packing or truncation disagrees.",
     "note": "Trusted: Coq kernel, Go's mutex semantics, the harness projection of Go values to model observations "
             "(payload identity re-checked with reflect.DeepEqual). No axioms.",
     "design_ref": "design/C16.md",
